@@ -70,11 +70,11 @@ impl Drop for ActionState {
             cap_id = None;
         }
         let was_last = cap_id.map_or(false, |id| oracle::is_last(wd, id));
+        if let Some(id) = cap_id {
+            wd.releasing.borrow_mut().push(id);
+        }
         {
             let _g = FrameGuard::api(Frame::ApiDrop);
-            if let Some(id) = cap_id {
-                wd.releasing.borrow_mut().push(id);
-            }
             drop(c);
             if let Some(id) = cap_id {
                 let mut r = wd.releasing.borrow_mut();
@@ -285,7 +285,7 @@ fn store(dst: Dst, cx: &Cx, new: Option<Cc<Node>>, new_id: Option<u32>) {
             (old, old_id)
         }
         Dst::Slot(own, hid, i) => {
-            let i = i as usize;
+            let i = i as usize % if hid { NH } else { NT };
             let (Some(oid), Some(p)) = (own_id(own, cx), own_node(own, cx)) else {
                 if let Some(id) = new_id {
                     oracle::lost_holder(wd, id);
@@ -378,7 +378,7 @@ fn wstore(dst: WLoc, cx: &Cx, new: Option<Weak<Node>>, t: WT) {
             wd.m.borrow_mut().wr[i] = t;
         }
         WLoc::Of(own, i) => {
-            let i = i as usize;
+            let i = i as usize % NW;
             let (Some(oid), Some(p)) = (own_id(own, cx), own_node(own, cx)) else {
                 let _g = FrameGuard::api(Frame::ApiOther);
                 drop(new);
@@ -630,6 +630,7 @@ fn op_new_cyclic(dst: Dst, spec: &Spec, script: &[Act], keep: u8, cx: &Cx) {
         let r = api(Frame::ApiNew, cx, "Cc::new_cyclic", || {
             Cc::new_cyclic(|wk: &Weak<Node>| {
                 let wd = w();
+                let _g = FrameGuard::cb(Cb::Closure, id);
                 // a collection started by new_cyclic's own allocation is over by now
                 if !was && wd.in_collection.get() {
                     oracle::auto_collection_done(wd, &pre, true);
@@ -637,7 +638,6 @@ fn op_new_cyclic(dst: Dst, spec: &Spec, script: &[Act], keep: u8, cx: &Cx) {
                 }
                 closure_ran.set(true);
                 oracle::cyclic_closure_start(wd, &pre);
-                let _g = FrameGuard::cb(Cb::Closure, id);
                 wd.m.borrow_mut().cyc.push(id);
                 struct PopCyc(u32);
                 impl Drop for PopCyc {
@@ -802,11 +802,14 @@ fn op_finalize_again(reg: Dst, cx: &Cx) {
         let Some(before) = before else { return };
         let res = {
             let _g = FrameGuard::api(Frame::ApiOther);
-            catch_unwind(AssertUnwindSafe(|| {
+            wd.expected_panics.set(wd.expected_panics.get() + 1);
+            let r = catch_unwind(AssertUnwindSafe(|| {
                 if let Some(c) = cell.borrow_mut().as_mut() {
                     c.finalize_again();
                 }
-            }))
+            }));
+            wd.expected_panics.set(wd.expected_panics.get().saturating_sub(1));
+            r
         };
         let after = cell.borrow().as_ref().map(|c| c.already_finalized()).unwrap_or(before);
         oracle::finalize_again_result(wd, id, res.is_ok(), before, after, cx.is_top());
@@ -879,10 +882,41 @@ fn op_collect_quiet(cx: &Cx) {
 #[cfg(feature = "cleaners")]
 fn op_register(own: Own, action: &ActionSpec, dst: u8, cx: &Cx) {
     let wd = w();
-    let (Some(oid), Some(p)) = (own_id(own, cx), own_node(own, cx)) else { return };
+    let Some(oid) = own_id(own, cx) else { return };
     if wd.m.borrow().obj(oid).map_or(true, |o| o.actions.len() >= MAX_ACTIONS) {
         return;
     }
+    // The program keeps its own handle to the owner while it calls owner.cleaner.register(..): that call can start a
+    // collection whose callbacks may overwrite the register the owner was reached through.
+    let pin: Cc<Node> = match own {
+        Own::R(i) => match clone_src(Src::R(i), cx) {
+            Some(c) => c.0,
+            None => return,
+        },
+        Own::G(i) => match clone_src(Src::G(i), cx) {
+            Some(c) => c.0,
+            None => return,
+        },
+        Own::Me => return, // a finalizer has no Cc to itself
+    };
+    wd.m.borrow_mut().pins.push(oid);
+    let p: *const Node = &*pin;
+    /// If a panic unwinds through, the pin goes away with it: keep the model in step.
+    struct PinGuard(Option<Cc<Node>>, u32);
+    impl Drop for PinGuard {
+        fn drop(&mut self) {
+            if self.0.is_some() {
+                if let Some(wd) = try_w() {
+                    if let Ok(mut m) = wd.m.try_borrow_mut() {
+                        if let Some(pos) = m.pins.iter().rposition(|x| *x == self.1) {
+                            m.pins.remove(pos);
+                        }
+                    }
+                }
+            }
+        }
+    }
+    let mut pin = PinGuard(Some(pin), oid);
     // captures (acquisitions first)
     let cap = action.cap.and_then(|s| clone_src(s, cx));
     let (wcap, wt) = match action.wcap {
@@ -940,6 +974,16 @@ fn op_register(own: Own, action: &ActionSpec, dst: u8, cx: &Cx) {
     if let Some(pre) = pre {
         oracle::post_new(wd, &pre, res.is_some(), "Cleaner::register");
     }
+    // release the pin (a handle like any other)
+    {
+        let mut m = wd.m.borrow_mut();
+        if let Some(pos) = m.pins.iter().rposition(|x| *x == oid) {
+            m.pins.remove(pos);
+        }
+    }
+    oracle::lost_holder(wd, oid);
+    wd.m.borrow_mut().latch();
+    release(pin.0.take(), Some(oid), cx);
     if let Some(cl) = res {
         // registering downgrades the map: it leaves the buffer
         {
